@@ -80,6 +80,7 @@ fn gen_mode(src: &str, sm: bool, script: Script, canonical: bool) -> GenRun {
     let mut log = verif_hooks::seam_log();
     log.sort();
     verif_hooks::seam_reset(vec![]);
+    verif_hooks::seam_off();
     GenRun { tokens: g.tokens.map(|t| t.to_string()).unwrap_or_else(|| format!("PANIC {:?}", g.observed.panicked)), graph: g.observed.graph, log }
 }
 
